@@ -167,13 +167,31 @@ class StdModel:
             if name == 'operator[]':
                 return '(&(%s)->a[%s])' % (objp, a[0])
             if name == 'fill':
-                return 'XV_ARR_FILL(%s, %s)' % (objp, em.lv(args[0]) if args[0].get('valueCategory') != 'prvalue' else em.rv(args[0]))
+                val = em.lv(args[0]) if args[0].get('valueCategory') != 'prvalue' else em.rv(args[0])
+                at = self.type(strip_cv(dq(obj['type'])).rstrip('&* '), em) or ''
+                arr = [k for k, v in self.arr_types.items() if v == at]
+                if arr and int(arr[0][1]) <= 16:
+                    # small arrays: element-wise assignments (complete, no array primitive)
+                    return '(%s)' % ', '.join('(%s)->a[%d] = %s' % (objp, k, val) for k in range(int(arr[0][1])))
+                return 'XV_ARR_FILL(%s, %s)' % (objp, val)
             if name == 'data' or name == 'begin':
                 return '(&(%s)->a[0])' % objp
             if name == 'size':
                 return '(sizeof((%s)->a)/sizeof((%s)->a[0]))' % (objp, objp)
             if name == 'end':
                 return '(&(%s)->a[0] + sizeof((%s)->a)/sizeof((%s)->a[0]))' % (objp, objp, objp)
+            NEL = '(sizeof((%s)->a)/sizeof((%s)->a[0]))' % (objp, objp)
+            if name == 'front':
+                return '(&(%s)->a[0])' % objp
+            if name == 'back':
+                return '(&(%s)->a[%s - 1])' % (objp, NEL)
+            if name == 'empty':
+                return '(%s == 0)' % NEL
+            if name == 'max_size':
+                return NEL
+            if name == 'at':
+                el = em.ctype(dq(n['type'])) if n is not None else 'int'
+                return em.model_call('XV_ARR_AT', ['(%s)->a' % objp, NEL, a[0]], el.rstrip('*').strip() + '*', maythrow=True)
             raise Unsupported('std::array::' + name)
         if own == '__gnu_cxx::__normal_iterator':
             a = [em.rv_or_lv(x) for x in args]
@@ -225,6 +243,22 @@ class StdModel:
         if q == 'std::operator+' and len(args) == 2 and self.type(strip_cv(dq(args[0]['type'])).rstrip('& '), em) == 'xv_str' and em.ctype(dq(args[1]['type'])) == 'char':
             self.used.add('std::operator+(std::string, char)')
             return 'xv_strs_plus_ch(%s, %s)' % (em.addr(args[0]), em.rv_or_lv(args[1]))
+        if q in ('std::operator==', 'std::operator!=') and len(args) == 2:
+            vt = self.type(strip_cv(dq(args[0]['type'])).rstrip('& '), em) or ''
+            if vt.startswith('xv_vec_'):
+                self.used.add(q + '(std::vector, std::vector)')
+                return '(%sxv_vec_%s_eq(%s, %s))' % ('!' if q.endswith('!=') else '', vt[len('xv_vec_'):], em.addr(args[0]), em.addr(args[1]))
+            arr = [k for k, v in self.arr_types.items() if v == vt]
+            if arr and int(arr[0][1]) <= 16:
+                self.used.add(q + '(std::array, std::array): element-wise, N = %s' % arr[0][1])
+                x, y = em.addr(args[0]), em.addr(args[1])
+                return '(%s(%s))' % ('!' if q.endswith('!=') else '', ' && '.join('(%s)->a[%d] == (%s)->a[%d]' % (x, k, y, k) for k in range(int(arr[0][1]))))
+        if q == 'std::equal' and len(args) == 3:
+            ct = em.ctype(dq(args[0]['type']))
+            if ct.endswith('*'):
+                self.used.add('std::equal(first1, last1, first2) on pointer iterators')
+                S = san(ct[:-1].replace('const', '').strip())
+                return 'xv_equal_%s(%s)' % (S, ', '.join(em.rv_or_lv(x) for x in args))
         if q in ('readlink',):
             self.used.add('readlink (POSIX): contract in the unit')
             return 'xv_readlink(%s)' % ', '.join(em.rv_or_lv(x) for x in args)
@@ -391,6 +425,7 @@ class StdModel:
         out = []
         for el, nm in self.vec_types.items():
             out.append('typedef struct { %s* data; unsigned long size; } %s;' % (el, nm))
+            out.append('#ifndef XV_GB_%s\n#define XV_GB_%s XV_GB\n#endif' % (nm[len('xv_vec_'):], nm[len('xv_vec_'):]))
             out.append('XV_VEC_MODEL(%s, %s)' % (el, nm[len('xv_vec_'):]))
         for (el, n), nm in self.arr_types.items():
             out.append('typedef struct { %s a[%s]; } %s;' % (el, n, nm))
